@@ -483,4 +483,70 @@ theorem includeGo_nodup (docs : List Doc) :
           subst hb
           intro hab; subst hab; contradiction
 
+/-! ### circular references are reported -/
+
+/-- what any lookup preserves about a name `q` whose circularity marker is set: it stays marked, staged and
+    unbuilt (nobody but the pending build of `q` itself touches it) -/
+structure Keeps (q : Name) (s s' : State) : Prop where
+  marked : s'.marked q = true
+  store : s'.store q = none
+  staging : s'.staging q = s.staging q
+
+theorem fold_keeps (q : Name) (f : State → Name → State × Res)
+    (hf : ∀ s x, s.marked q = true → s.store q = none → Keeps q s (f s x).1) :
+    ∀ ds s, s.marked q = true → s.store q = none → Keeps q s (foldDeps f s ds).1 := by
+  intro ds
+  induction ds with
+  | nil => intro s hm hs; exact ⟨hm, hs, rfl⟩
+  | cons d ds ih =>
+    intro s hm hs
+    have k1 := hf s d hm hs
+    have k2 := ih (f s d).1 k1.marked k1.store
+    exact ⟨k2.marked, k2.store, k2.staging.trans k1.staging⟩
+
+theorem lookup_keeps (q : Name) :
+    ∀ n s x, s.marked q = true → s.store q = none → Keeps q s (lookup n s x).1 := by
+  intro n
+  induction n with
+  | zero => intro s x hm hs; exact ⟨hm, hs, rfl⟩
+  | succ n ih =>
+    intro s x hm hs
+    unfold lookup
+    split
+    · exact ⟨hm, hs, rfl⟩
+    · split
+      · exact ⟨hm, hs, rfl⟩
+      · split
+        · exact ⟨hm, hs, rfl⟩
+        · rename_i hx
+          have hxq : q ≠ x := by intro h; subst h; exact hx hm
+          rename_i d _
+          have k := fold_keeps q (lookup n) ih d.deps
+            { s with marked := set s.marked x true, log := Ev.enter x :: s.log }
+            (by simp [set, hxq, hm]) hs
+          refine ⟨?_, ?_, ?_⟩
+          · simp only [set, hxq, ↓reduceIte]; exact k.marked
+          · simp only [set, hxq, ↓reduceIte]; exact k.store
+          · simp only [set, hxq, ↓reduceIte]; exact k.staging
+
+theorem fold_reports (q : Name) (n : Nat) (d : Decl) :
+    ∀ ds s, s.marked q = true → s.store q = none → s.staging q = some d → q ∈ ds →
+      Res.circ q ∈ (foldDeps (lookup (n + 1)) s ds).2 := by
+  intro ds
+  induction ds with
+  | nil => intro s _ _ _ h; cases h
+  | cons x ds ih =>
+    intro s hm hs hg hq
+    simp only [foldDeps]
+    by_cases hx : x = q
+    · subst hx
+      have : (lookup (n + 1) s x).2 = .circ x := by simp [lookup, hs, hg, hm]
+      rw [this]; exact List.mem_cons_self ..
+    · have hq' : q ∈ ds := by
+        rcases List.mem_cons.mp hq with h | h
+        · exact absurd h.symm hx
+        · exact h
+      have k := lookup_keeps q (n + 1) s x hm hs
+      exact List.mem_cons_of_mem _ (ih _ k.marked k.store (k.staging.trans hg) hq')
+
 end XsVerif.Staged
